@@ -25,6 +25,8 @@ type E1Spec struct {
 	Level    string
 	HInit    string
 	HFlags   int
+	AbsentIndex bool
+	Foreign  *ForeignSpec
 }
 
 type E1Stats struct {
@@ -46,7 +48,7 @@ func ExploreE1(p *pool.Pool, spec E1Spec, rep *Report, deadline time.Time) E1Sta
 	// initial state
 	frontier := [][]ops.Op{}
 	{
-		job := &E1Job{Cfg: spec.Cfg, Setup: spec.Setup, Hist: nil, Oracles: spec.Oracles, AllJ: spec.AllJ, Level: spec.Level, HInit: spec.HInit, HFlags: spec.HFlags}
+		job := &E1Job{Cfg: spec.Cfg, Setup: spec.Setup, Hist: nil, Oracles: spec.Oracles, AllJ: spec.AllJ, Level: spec.Level, HInit: spec.HInit, HFlags: spec.HFlags, AbsentIndex: spec.AbsentIndex, Foreign: spec.Foreign}
 		p.Map("e1", []interface{}{job}, func(i int, resp *pool.Response) {
 			st.Transitions++
 			if resp.Err != "" {
@@ -81,7 +83,7 @@ func ExploreE1(p *pool.Pool, spec E1Spec, rep *Report, deadline time.Time) E1Sta
 		for _, h := range frontier {
 			for _, op := range spec.Alphabet {
 				hist := append(append([]ops.Op{}, h...), op)
-				jobs = append(jobs, &E1Job{Cfg: spec.Cfg, Setup: spec.Setup, Hist: hist, Oracles: spec.Oracles, AllJ: spec.AllJ, Level: spec.Level, HInit: spec.HInit, HFlags: spec.HFlags})
+				jobs = append(jobs, &E1Job{Cfg: spec.Cfg, Setup: spec.Setup, Hist: hist, Oracles: spec.Oracles, AllJ: spec.AllJ, Level: spec.Level, HInit: spec.HInit, HFlags: spec.HFlags, AbsentIndex: spec.AbsentIndex, Foreign: spec.Foreign})
 			}
 		}
 		next := [][]ops.Op{}
@@ -115,7 +117,7 @@ func ExploreE1(p *pool.Pool, spec E1Spec, rep *Report, deadline time.Time) E1Sta
 				st.Harness = append(st.Harness, ops.HistString(job.Hist)+": "+r.Harness)
 				return
 			}
-			if spec.Level != "handle" {
+			if spec.Level != "handle" && spec.Level != "ro" {
 				st.Outcomes[job.Hist[len(job.Hist)-1].K+":"+errClass2(r.Outcome)]++
 			}
 			rep.Add("e1", job, r.Viol)
